@@ -22,6 +22,15 @@ const CUSTOM_RULES: &str = "corp\nintra.corp\n*.lab\n!gate.lab\n公司.test\ntes
 /// name in A-label or U-label spelling.
 #[derive(Clone)]
 pub struct CustomProvider(pub Arc<Psl>);
+/// The same provider, refusing with another error variant (a provider is free to choose):
+/// 1 = InvalidPublicSuffix, 2 = EmptyLabel.
+#[derive(Clone)]
+pub struct CustomProviderErr(pub Arc<Psl>, pub u8);
+impl EffectiveTLDProvider for CustomProviderErr {
+    fn effective_tld_plus_one<'a>(&self, domain: &'a str) -> Result<&'a str, public_suffix::Error> {
+        CustomProvider(self.0.clone()).effective_tld_plus_one(domain).map_err(|_| if self.1 == 1 { public_suffix::Error::InvalidPublicSuffix } else { public_suffix::Error::EmptyLabel })
+    }
+}
 impl EffectiveTLDProvider for CustomProvider {
     fn effective_tld_plus_one<'a>(&self, domain: &'a str) -> Result<&'a str, public_suffix::Error> {
         if !Psl::well_formed(domain) {
@@ -63,6 +72,10 @@ pub struct Case {
     pub custom_provider: bool,
     /// also drive Client::register / Client::authenticate
     pub through_client: bool,
+    /// custom provider only: error variant it refuses with (0 = CannotDeriveETldPlus1 / EmptyLabel
+    /// as the shipped one, 1 = always InvalidPublicSuffix, 2 = always EmptyLabel)
+    #[serde(default)]
+    pub custom_err: u8,
 }
 
 #[derive(Clone, Copy, PartialEq, Debug)]
@@ -208,7 +221,9 @@ fn verify(w: &World, c: &Case) -> (Verdict, Option<(String, String)>) {
             }
         }};
     }
-    if c.custom_provider {
+    if c.custom_provider && c.custom_err != 0 {
+        go!(RpIdVerifier::new(CustomProviderErr(w.custom.clone(), c.custom_err)))
+    } else if c.custom_provider {
         go!(RpIdVerifier::new(CustomProvider(w.custom.clone())))
     } else {
         go!(RpIdVerifier::new(public_suffix::DEFAULT_PROVIDER))
@@ -279,7 +294,9 @@ pub fn eval(w: &World, c: &Case) -> (Vec<Finding>, String, bool) {
     // is_valid_rp_id on the RP ID string itself
     if let Some(rp) = &c.rp {
         let valid = par::catch(|| {
-            if c.custom_provider {
+            if c.custom_provider && c.custom_err != 0 {
+                RpIdVerifier::new(CustomProviderErr(w.custom.clone(), c.custom_err)).allows_insecure_localhost(c.localhost).is_valid_rp_id(rp)
+            } else if c.custom_provider {
                 RpIdVerifier::new(CustomProvider(w.custom.clone())).allows_insecure_localhost(c.localhost).is_valid_rp_id(rp)
             } else {
                 RpIdVerifier::new(public_suffix::DEFAULT_PROVIDER).allows_insecure_localhost(c.localhost).is_valid_rp_id(rp)
@@ -400,7 +417,12 @@ pub fn cases(w: &World, tier: Tier) -> Vec<Case> {
     let mut push = |kind: &str, origin: String, rp: Option<String>, tc: bool| {
         for localhost in [false, true] {
             for custom_provider in [false, true] {
-                v.push(Case { kind: kind.into(), origin: origin.clone(), rp: rp.clone(), localhost, custom_provider, through_client: tc && !custom_provider });
+                v.push(Case { kind: kind.into(), origin: origin.clone(), rp: rp.clone(), localhost, custom_provider, through_client: tc && !custom_provider, custom_err: 0 });
+                if custom_provider && !localhost {
+                    for custom_err in [1u8, 2] {
+                        v.push(Case { kind: kind.into(), origin: origin.clone(), rp: rp.clone(), localhost, custom_provider, through_client: false, custom_err });
+                    }
+                }
             }
         }
     };
@@ -428,11 +450,11 @@ pub fn cases(w: &World, tier: Tier) -> Vec<Case> {
             }
             let host = format!("www.{r}");
             for localhost in [false] {
-                v.push(Case { kind: "web".into(), origin: format!("https://{host}"), rp: Some(r.clone()), localhost, custom_provider: false, through_client: false });
-                v.push(Case { kind: "android".into(), origin: host.clone(), rp: Some(r.clone()), localhost, custom_provider: false, through_client: false });
+                v.push(Case { kind: "web".into(), origin: format!("https://{host}"), rp: Some(r.clone()), localhost, custom_provider: false, through_client: false, custom_err: 0 });
+                v.push(Case { kind: "android".into(), origin: host.clone(), rp: Some(r.clone()), localhost, custom_provider: false, through_client: false, custom_err: 0 });
                 if tier == Tier::Thorough {
-                    v.push(Case { kind: "web".into(), origin: format!("https://{host}"), rp: None, localhost, custom_provider: false, through_client: false });
-                    v.push(Case { kind: "web".into(), origin: format!("https://{r}"), rp: None, localhost, custom_provider: false, through_client: false });
+                    v.push(Case { kind: "web".into(), origin: format!("https://{host}"), rp: None, localhost, custom_provider: false, through_client: false, custom_err: 0 });
+                    v.push(Case { kind: "web".into(), origin: format!("https://{r}"), rp: None, localhost, custom_provider: false, through_client: false, custom_err: 0 });
                 }
             }
         }
@@ -441,8 +463,8 @@ pub fn cases(w: &World, tier: Tier) -> Vec<Case> {
         let body = u.trim_start_matches('!').trim_start_matches("*.");
         if let Some(a) = punycode::to_ascii(body) {
             // U-label spelling of an IDN public suffix as RP ID (is_valid_rp_id / android host in U-label form)
-            v.push(Case { kind: "android".into(), origin: format!("www.{body}"), rp: Some(body.to_string()), localhost: false, custom_provider: false, through_client: false });
-            v.push(Case { kind: "web".into(), origin: format!("https://www.{a}"), rp: Some(body.to_string()), localhost: false, custom_provider: false, through_client: false });
+            v.push(Case { kind: "android".into(), origin: format!("www.{body}"), rp: Some(body.to_string()), localhost: false, custom_provider: false, through_client: false, custom_err: 0 });
+            v.push(Case { kind: "web".into(), origin: format!("https://www.{a}"), rp: Some(body.to_string()), localhost: false, custom_provider: false, through_client: false, custom_err: 0 });
         }
     }
     v
@@ -588,7 +610,7 @@ pub fn eval_seq(w: &World, c: &SeqCase) -> (Vec<Finding>, String) {
         // the stand-alone oracle applies to every accepted verdict as well
         if !c.through_client {
             if let Verdict::Accepted(r) = got {
-                let cc = Case { kind: call.0.clone(), origin: call.1.clone(), rp: call.2.clone(), localhost: c.localhost, custom_provider: false, through_client: false };
+                let cc = Case { kind: call.0.clone(), origin: call.1.clone(), rp: call.2.clone(), localhost: c.localhost, custom_provider: false, through_client: false, custom_err: 0 };
                 let (scheme, host) = if call.0 == "web" { Url::parse(&call.1).map(|u| (u.scheme().to_string(), u.host_str().unwrap_or("").to_string())).unwrap_or_default() } else { (String::new(), call.1.clone()) };
                 for (kind, d) in oracle(w, &cc, &scheme, &host, r) {
                     fs.push(Finding::new(format!("history/origin={}/kind={kind}", call.0), format!("{d}; in call #{k} of a sequence"), case.clone()));
@@ -646,7 +668,7 @@ pub fn run(ctx: &Ctx) -> Result<Run, String> {
     }
     let mut run = Run::from_stats(
         "exploration",
-        "full product of ~47 hosts (plain/wildcard/exception suffixes, character-suffix traps, single-label, localhost shapes, IDN, trailing/empty labels, IP literals, custom-list names) x 6 schemes x 3 ports x RP IDs {absent, every character-level suffix of the host, '', www.+host, upper-case, leading/trailing dot, unrelated, localhost, U-label form} x insecure-localhost {off,on} x provider {shipped, 6-rule custom} for web and Android origins, plus every rule of the shipped list (A-label, and U-label for IDN rules) as RP ID of an origin one label below it; the https/http no-port subset is also driven through Client::register and Client::authenticate. plus histories: every ordered pair (thorough: triple) of 24 representative calls on ONE RpIdVerifier and on ONE Client, each verdict compared with a fresh instance's (history independence). Non-trivial = distinct pair/sequence that the implementation accepted",
+        "full product of ~47 hosts (plain/wildcard/exception suffixes, character-suffix traps, single-label, localhost shapes, IDN, trailing/empty labels, IP literals, custom-list names) x 6 schemes x 3 ports x RP IDs {absent, every character-level suffix of the host, '', www.+host, upper-case, leading/trailing dot, unrelated, localhost, U-label form} x insecure-localhost {off,on} x provider {shipped, 6-rule custom refusing with each of three error variants} for web and Android origins, plus every rule of the shipped list (A-label, and U-label for IDN rules) as RP ID of an origin one label below it; the https/http no-port subset is also driven through Client::register and Client::authenticate. plus histories: every ordered pair (thorough: triple) of 24 representative calls on ONE RpIdVerifier and on ONE Client, each verdict compared with a fresh instance's (history independence). Non-trivial = distinct pair/sequence that the implementation accepted",
         true,
         stats,
     );
